@@ -152,6 +152,6 @@ int main(int argc, char** argv)
 {
   FEAT::Runtime::ScopeGuard guard(argc, argv);
   std::vector<Target> tg;
-  tg.push_back({"relabel", relabel_target, 160, 8});
+  tg.push_back({"relabel", relabel_target, 160, 8, 5000});
   return main_impl(argc, argv, tg);
 }
